@@ -124,6 +124,13 @@ type resSpec struct {
 	Name      string     `json:"name"`
 	Kind      string     `json:"kind"`
 	SecretRef bool       `json:"secretRef"` // composed resource has its own writeConnectionSecretToRef
+	// NS is the composed resource's own metadata.namespace ("" = cluster scoped). RefNS is the namespace its
+	// spec.writeConnectionSecretToRef names ("" = provNS); it may equal NS or be ANOTHER namespace.
+	NS    string `json:"ns,omitempty"`
+	RefNS string `json:"refNS,omitempty"`
+	// Decoy, if non-nil, is the data of a foreign-owned secret that has the same NAME as the referenced
+	// connection secret but sits in the composed resource's own namespace (only when NS != "" and NS != RefNS).
+	Decoy map[string][]byte `json:"decoy,omitempty"`
 	Details   []ptDetail `json:"details,omitempty"`
 }
 
@@ -188,6 +195,31 @@ func genSecretSpec(label string) *rapid.Generator[secretSpec] {
 		return s
 	})
 }
+
+// decoy values never coincide with a value of the referenced secrets, the scripted functions or the templates.
+var decoyAlphabet = [][]byte{[]byte("DECOY-1"), []byte("DECOY-2"), {}}
+
+func genDecoyData(label string) *rapid.Generator[map[string][]byte] {
+	return rapid.Custom(func(t *rapid.T) map[string][]byte {
+		out := map[string][]byte{}
+		for _, k := range keyAlphabet {
+			if rapid.IntRange(0, 3).Draw(t, label+"-has-"+k) != 0 {
+				out[k] = rapid.SampledFrom(decoyAlphabet).Draw(t, label+"-val-"+k)
+			}
+		}
+		return out
+	})
+}
+
+func (r resSpec) refNS() string {
+	if r.RefNS == "" {
+		return provNS
+	}
+	return r.RefNS
+}
+
+// crossNS: a namespaced composed resource whose connection secret reference names another namespace.
+func (r resSpec) crossNS() bool { return r.SecretRef && r.NS != "" && r.NS != r.refNS() }
 
 func genFilter() *rapid.Generator[[]string] {
 	return rapid.Custom(func(t *rapid.T) []string {
@@ -261,6 +293,11 @@ func genScenario(withClaim bool) *rapid.Generator[scenario] {
 		nres := rapid.IntRange(1, 2).Draw(t, "nres")
 		for i := 0; i < nres; i++ {
 			r := resSpec{Name: fmt.Sprintf("r%d", i), Kind: []string{"KindA", "KindB"}[i], SecretRef: rapid.IntRange(0, 4).Draw(t, "secretref") != 0}
+			r.NS = rapid.SampledFrom([]string{"", "ns-a", "ns-a", "ns-b"}).Draw(t, "res-ns")
+			r.RefNS = rapid.SampledFrom([]string{"", "ns-a", "ns-b", "ns-b"}).Draw(t, "res-refns")
+			if r.crossNS() && rapid.Bool().Draw(t, "decoy-pre") {
+				r.Decoy = genDecoyData("decoy").Draw(t, "decoy-data")
+			}
 			if !sc.Pipeline {
 				nd := rapid.IntRange(0, 3).Draw(t, "ndetails")
 				for j := 0; j < nd; j++ {
@@ -317,7 +354,15 @@ func genHistory(sc scenario) *rapid.Generator[[]step] {
 			if sc.Claim != nil {
 				hi = 15
 			}
-			switch c := rapid.IntRange(0, hi).Draw(t, "op"); {
+			c := rapid.IntRange(-1, hi).Draw(t, "op")
+			switch {
+			case c == -1:
+				// Somebody else puts (or removes) a same-named secret next to a namespaced composed resource.
+				st.Op = "decoy"
+				st.Res = rapid.IntRange(0, len(sc.Res)-1).Draw(t, "res")
+				if rapid.IntRange(0, 3).Draw(t, "decoy-present") != 0 {
+					st.Data = genDecoyData("decoy").Draw(t, "decoy-data")
+				}
 			case c <= 3:
 				st.Op = "reconcile"
 			case c == 4 || c == 5:
@@ -388,6 +433,11 @@ func newWorld(sc scenario, fail func(string, ...any)) *world {
 	for i, x := range sc.XRs {
 		xr := env.NewXR(x.Name, "comp")
 		_ = unstructured.SetNestedField(xr.Object, x.Tag, "spec", "params", "tag")
+		for _, r := range sc.Res {
+			if r.NS != "" {
+				_ = unstructured.SetNestedField(xr.Object, r.NS, "spec", "params", "ns_"+r.Name)
+			}
+		}
 		if x.HasRef {
 			xr.SetWriteConnectionSecretToReference(&xpv1.SecretReference{Name: x.Secret, Namespace: xrNS})
 		}
@@ -413,6 +463,11 @@ func newWorld(sc scenario, fail func(string, ...any)) *world {
 			"resourceRef":    map[string]any{"apiVersion": "example.org/v1", "kind": "XThing", "name": sc.XRs[0].Name},
 			"params":         map[string]any{"tag": sc.XRs[0].Tag},
 		}
+		for _, r := range sc.Res {
+			if r.NS != "" {
+				spec["params"].(map[string]any)["ns_"+r.Name] = r.NS
+			}
+		}
 		if sc.Claim.HasRef {
 			spec["writeConnectionSecretToRef"] = map[string]any{"name": claimSecret}
 		}
@@ -423,6 +478,11 @@ func newWorld(sc scenario, fail func(string, ...any)) *world {
 	// Pre-existing secrets are put in place after the owners exist so that "owned" can carry their UIDs.
 	for i := range w.sc.XRs {
 		w.putXRSecret(i, w.sc.XRs[i].Pre)
+		for j, r := range sc.Res {
+			if r.Decoy != nil {
+				w.putDecoy(i, j, r.Decoy)
+			}
+		}
 	}
 	if sc.Claim != nil {
 		w.putClaimSecret(sc.Claim.Pre)
@@ -471,6 +531,20 @@ func (w *world) putSecret(ns, name string, s secretSpec, ownerKind, ownerName, o
 	}
 }
 
+// putDecoy puts (data != nil) or removes a foreign-owned secret named like the composed resource's
+// connection secret into the composed resource's OWN namespace. No-op unless the reference is cross-namespace.
+func (w *world) putDecoy(xr, res int, data map[string][]byte) {
+	r := w.sc.Res[res]
+	if !r.crossNS() {
+		return
+	}
+	s := secretSpec{State: stAbsent}
+	if data != nil {
+		s = secretSpec{State: stOther, Data: data}
+	}
+	w.putSecret(r.NS, composedSecretName(w.sc.XRs[xr].Name, r.Name), s, "Decoy", "", "", "decoy-owner", "uid-decoy")
+}
+
 func (w *world) putXRSecret(i int, s secretSpec) {
 	x := w.sc.XRs[i]
 	on, ou := w.otherUIDFor(i)
@@ -514,10 +588,15 @@ func (sc scenario) composition() *v1.Composition {
 	for _, r := range sc.Res {
 		spec := map[string]any{"forProvider": map[string]any{"v": "base"}}
 		if r.SecretRef {
-			spec["writeConnectionSecretToRef"] = map[string]any{"namespace": provNS}
+			spec["writeConnectionSecretToRef"] = map[string]any{"namespace": r.refNS()}
 		}
 		base, _ := json.Marshal(map[string]any{"apiVersion": "example.org/v1", "kind": r.Kind, "spec": spec})
 		ct := v1.ComposedTemplate{Name: ptr.To(r.Name), Base: runtime.RawExtension{Raw: base}}
+		if r.NS != "" {
+			// RenderFromJSON resets the namespace of a template base, so a namespaced composed resource
+			// gets its namespace the way real Compositions do it: a patch from the XR.
+			ct.Patches = append(ct.Patches, v1.Patch{Type: v1.PatchTypeFromCompositeFieldPath, FromFieldPath: ptr.To("spec.params.ns_" + r.Name), ToFieldPath: ptr.To("metadata.namespace")})
+		}
 		ct.Patches = append(ct.Patches, v1.Patch{Type: v1.PatchTypeFromCompositeFieldPath, FromFieldPath: ptr.To("spec.params.tag"), ToFieldPath: ptr.To("spec.forProvider.v")})
 		if r.SecretRef {
 			ct.Patches = append(ct.Patches, v1.Patch{
@@ -563,9 +642,13 @@ func (w *world) runner() composite.FunctionRunner {
 			for _, r := range w.sc.Res {
 				spec := map[string]any{"forProvider": map[string]any{"v": tag}}
 				if r.SecretRef {
-					spec["writeConnectionSecretToRef"] = map[string]any{"namespace": provNS, "name": composedSecretName(xrName, r.Name)}
+					spec["writeConnectionSecretToRef"] = map[string]any{"namespace": r.refNS(), "name": composedSecretName(xrName, r.Name)}
 				}
-				s, err := structpb.NewStruct(map[string]any{"apiVersion": "example.org/v1", "kind": r.Kind, "spec": spec})
+				res := map[string]any{"apiVersion": "example.org/v1", "kind": r.Kind, "spec": spec}
+				if r.NS != "" {
+					res["metadata"] = map[string]any{"namespace": r.NS}
+				}
+				s, err := structpb.NewStruct(res)
 				if err != nil {
 					return nil, err
 				}
@@ -584,10 +667,10 @@ func (w *world) runner() composite.FunctionRunner {
 				}
 				var want map[string][]byte
 				if r.SecretRef {
-					want = dataOf(w.env.Sim.Get(secretKey(provNS, composedSecretName(xrName, r.Name))))
+					want = dataOf(w.env.Sim.Get(secretKey(r.refNS(), composedSecretName(xrName, r.Name))))
 				}
 				if !dataEqual(o.GetConnectionDetails(), want) {
-					w.fnFindings = append(w.fnFindings, fmt.Sprintf("function of XR %s observed connection details %s for composed resource %q, but that resource's connection secret holds %s", xrName, fmtData(o.GetConnectionDetails()), r.Name, fmtData(want)))
+					w.fnFindings = append(w.fnFindings, fmt.Sprintf("function of XR %s observed connection details %s for composed resource %q (namespace %q), but the connection secret it references, %s/%s, holds %s", xrName, fmtData(o.GetConnectionDetails()), r.Name, r.NS, r.refNS(), composedSecretName(xrName, r.Name), fmtData(want)))
 				}
 			}
 		}
@@ -719,6 +802,16 @@ type product struct {
 	Valid    bool              // the composition ran to completion and produced details
 	Details  map[string][]byte // key -> value
 	Optional map[string]bool   // keys whose presence the contract leaves open (empty source value)
+}
+
+// composedKey returns the store key of the composed resource res of the XR.
+func (w *world) composedKey(xrName, res string) verifsim.Key {
+	for k, o := range w.env.Sim.State() {
+		if strings.HasPrefix(k.Kind, "Kind") && verifsim.Annotations(o)[annName] == res && verifsim.ControllerUID(o) == w.uids[xrName] {
+			return k
+		}
+	}
+	return verifsim.Key{}
 }
 
 // expectedPT computes, from the templates and the store, the XR connection details the P&T
@@ -965,6 +1058,36 @@ func (w *world) reconcileXR(i int, rec *verifkit.Recorder, ctx string) xrOutcome
 	if out.wrote {
 		rec.Label("xr:wrote")
 	}
+	crossDecoy := false
+	for _, r := range w.sc.Res {
+		switch {
+		case r.NS == "":
+			rec.Label("cd:cluster-scoped")
+		case !r.SecretRef:
+			rec.Label("cd:namespaced-no-secret-ref")
+		case !r.crossNS():
+			rec.Label("cd:namespaced-same-ns-secret-ref")
+		default:
+			real := w.env.Sim.Get(secretKey(r.refNS(), composedSecretName(x.Name, r.Name)))
+			decoy := w.env.Sim.Get(secretKey(r.NS, composedSecretName(x.Name, r.Name)))
+			l := "cd:namespaced-cross-ns-secret-ref"
+			if decoy != nil {
+				l += "+decoy-present"
+				crossDecoy = true
+			} else {
+				l += "+decoy-absent"
+			}
+			if real != nil {
+				l += "+referenced-present"
+			} else {
+				l += "+referenced-absent"
+			}
+			rec.Label(l)
+		}
+	}
+	if crossDecoy && out.wrote {
+		rec.Label("xr:wrote-with-cross-ns-decoy-present")
+	}
 	excl := false
 	for k := range prod.Details {
 		if !w.allowed(k) {
@@ -1116,7 +1239,9 @@ func (w *world) apply(st step) {
 	switch st.Op {
 	case "provSecret":
 		r := w.sc.Res[st.Res]
-		w.putSecret(provNS, composedSecretName(x.Name, r.Name), secretSpec{State: stUnctlConn, Data: st.Data}, "", "", "", "", "")
+		w.putSecret(r.refNS(), composedSecretName(x.Name, r.Name), secretSpec{State: stUnctlConn, Data: st.Data}, "", "", "", "", "")
+	case "decoy":
+		w.putDecoy(st.XR, st.Res, st.Data)
 	case "provStatus":
 		r := w.sc.Res[st.Res]
 		for _, k := range w.env.Sim.AllKeys() {
@@ -1184,7 +1309,7 @@ func (w *world) run(hist []step, rec *verifkit.Recorder) (nontrivial bool) {
 // ---------------------------------------------------------------------------
 // properties
 
-const ruleXR = "scenario = 1-2 XRs (with/without writeConnectionSecretToRef, optionally the same secret name) + XRD key filter + Composition (1-2 scripted function steps returning composite connection details, or P&T templates with connectionDetails of every type incl. malformed ones) + pre-existing secret state at the XR's secret name; history = XR reconciles interleaved with provider writes of composed resources' secrets/status, tag changes and outside replacement of the XR secret; every Secret write request in the server's log of each reconcile is judged. Non-trivial = a reconcile of an XR with a secret ref whose composition completed and (the filter excludes a produced key or a secret already exists at the destination)"
+const ruleXR = "scenario = 1-2 XRs (with/without writeConnectionSecretToRef, optionally the same secret name) + XRD key filter + Composition (1-2 scripted function steps returning composite connection details, or P&T templates with connectionDetails of every type incl. malformed ones) + composed resources that are cluster-scoped or namespaced (ns-a/ns-b) with a connection secret reference into the same or ANOTHER namespace, and a same-named foreign secret (decoy) in the composed resource's own namespace present or absent + pre-existing secret state at the XR's secret name; history = XR reconciles interleaved with decoy appearance/removal, provider writes of composed resources' secrets/status, tag changes and outside replacement of the XR secret; every Secret write request in the server's log of each reconcile is judged. Non-trivial = a reconcile of an XR with a secret ref whose composition completed and (the filter excludes a produced key or a secret already exists at the destination)"
 
 func TestVerifC09XR(t *testing.T) {
 	rec := verifkit.New(t, "C09", ruleXR)
@@ -1300,6 +1425,45 @@ func TestVerifC09Pinned(t *testing.T) {
 			wantData(t, w, clKey, nil, "")
 		}},
 	}
+	// Namespaced composed resources whose secret reference names ANOTHER namespace, with a same-named
+	// foreign secret (decoy) next to the composed resource: only the REFERENCED secret's values may flow.
+	nsPipe := func(decoy map[string][]byte, cl *claimSpec) scenario {
+		sc := pipe(nil, xr1(true, secretSpec{}), cl)
+		sc.Res = []resSpec{{Name: "r0", Kind: "KindA", SecretRef: true, NS: "ns-a", RefNS: "ns-b", Decoy: decoy}}
+		return sc
+	}
+	dec := map[string][]byte{"a": []byte("DECOY-1"), "d": []byte("DECOY-2")}
+	rows = append(rows, []struct {
+		name   string
+		sc     scenario
+		hist   []step
+		expect func(t *testing.T, w *world)
+	}{
+		{"pt-cross-namespace-ref-with-decoy", scenario{Seed: 5, Steps: 1, XRs: []xrSpec{xr1(true, secretSpec{})}, Res: []resSpec{{Name: "r0", Kind: "KindA", SecretRef: true, NS: "ns-a", RefNS: "ns-b", Decoy: dec, Details: []ptDetail{
+			{FromKey: ptr.To("a")}, {FromKey: ptr.To("d"), Name: ptr.To("c")},
+		}}}}, []step{rc(0), {Op: "provSecret", Data: map[string][]byte{"a": []byte("v1")}}, rc(0), rc(0)}, func(t *testing.T, w *world) {
+			wantData(t, w, xrKey, map[string][]byte{"a": []byte("v1")}, w.uids["xr1"])
+			if k := w.composedKey("xr1", "r0"); k.Namespace != "ns-a" {
+				t.Fatalf("composed resource is %s, want it in namespace ns-a", k)
+			}
+		}},
+		{"pt-cross-namespace-ref-decoy-only", scenario{Seed: 5, Steps: 1, XRs: []xrSpec{xr1(true, secretSpec{})}, Res: []resSpec{{Name: "r0", Kind: "KindA", SecretRef: true, NS: "ns-b", RefNS: "", Decoy: dec, Details: []ptDetail{
+			{FromKey: ptr.To("a")}, {Value: ptr.To("fixed"), Name: ptr.To("b")},
+		}}}}, []step{rc(0), rc(0)}, func(t *testing.T, w *world) {
+			wantData(t, w, xrKey, map[string][]byte{"b": []byte("fixed")}, w.uids["xr1"])
+		}},
+		{"pipeline-cross-namespace-ref-with-decoy-to-claim", nsPipe(dec, &claimSpec{HasRef: true}), []step{{Op: "provSecret", Data: map[string][]byte{"d": []byte("s3cr3t")}}, rc(0), rc(0), {Op: "claim"}}, func(t *testing.T, w *world) {
+			want := map[string][]byte{"a": taggedValue("xr1", "t1", "a"), "b": []byte("v1"), "c": []byte("s3cr3t")}
+			wantData(t, w, xrKey, want, w.uids["xr1"])
+			wantData(t, w, clKey, want, w.claimUID)
+			if k := w.composedKey("xr1", "r0"); k.Namespace != "ns-a" {
+				t.Fatalf("composed resource is %s, want it in namespace ns-a", k)
+			}
+		}},
+		{"pipeline-cross-namespace-ref-decoy-appears-later", nsPipe(nil, nil), []step{{Op: "provSecret", Data: map[string][]byte{"d": []byte("s3cr3t")}}, rc(0), rc(0), {Op: "decoy", Data: dec}, {Op: "tag", Str: "t2"}, rc(0)}, func(t *testing.T, w *world) {
+			wantData(t, w, xrKey, map[string][]byte{"a": taggedValue("xr1", "t2", "a"), "b": []byte("v1"), "c": []byte("s3cr3t")}, w.uids["xr1"])
+		}},
+	}...)
 	for _, row := range rows {
 		t.Run(row.name, func(t *testing.T) {
 			rec.Eval()
